@@ -14,6 +14,8 @@
 //   eq 0 j1 j2 c0 c1 solref[2] solimp[5]          joint equality (j2 = -1: none);   eq 1 body ax ay az solref[2] solimp[5]   connect to the world
 //   site name px py pz                            (of the last body)      wsite name px py pz   (on the world body)
 //   tendon stiffness damping sl0 sl1 nwrap (kind ref coef)*     kind 0: joint j<ref> with coef; kind 1: site named s<ref>
+//   (body lines may continue with: gravcomp; joint lines after the solver parameters with: actgravcomp actfrclimited lo hi;
+//    act lines with: kv ctrllimited clo chi forcelimited flo fhi;  act kind 2 = velocity servo with gain kv)
 //   sensor typename objtype objname reftype refname      (objtype / reftype: body xbody site joint actuator none; refname "-" when none)
 //   act jointindex kind gear kp                   (kind 0 motor, 1 position)
 //   END
@@ -40,6 +42,12 @@ static void pi(const char* name, const int* v, int n, int comma) {
   printf("]%s", comma ? "," : "");
 }
 static void pb(const char* name, const mjtByte* v, int n, int comma) {
+  printf("\"%s\":[", name);
+  for (int i = 0; i < n; i++) printf("%s%d", i ? "," : "", (int)v[i]);
+  printf("]%s", comma ? "," : "");
+}
+
+static void pbl(const char* name, const mjtBool* v, int n, int comma) {
   printf("\"%s\":[", name);
   for (int i = 0; i < n; i++) printf("%s%d", i ? "," : "", (int)v[i]);
   printf("]%s", comma ? "," : "");
@@ -114,7 +122,11 @@ static void dump_model(const mjModel* m) {
   pa("eq_data", m->eq_data, mjNEQDATA * m->neq, 1);
   pi("sensor_type", m->sensor_type, m->nsensor, 1); pi("sensor_objtype", m->sensor_objtype, m->nsensor, 1); pi("sensor_objid", m->sensor_objid, m->nsensor, 1);
   pi("sensor_reftype", m->sensor_reftype, m->nsensor, 1); pi("sensor_refid", m->sensor_refid, m->nsensor, 1); pi("sensor_adr", m->sensor_adr, m->nsensor, 1);
-  pi("sensor_dim", m->sensor_dim, m->nsensor, 0);
+  pi("sensor_dim", m->sensor_dim, m->nsensor, 1);
+  pa("body_gravcomp", m->body_gravcomp, m->nbody, 1); pbl("jnt_actgravcomp", m->jnt_actgravcomp, m->njnt, 1);
+  pbl("jnt_actfrclimited", m->jnt_actfrclimited, m->njnt, 1); pa("jnt_actfrcrange", m->jnt_actfrcrange, 2 * m->njnt, 1);
+  pbl("actuator_ctrllimited", m->actuator_ctrllimited, m->nu, 1); pa("actuator_ctrlrange", m->actuator_ctrlrange, 2 * m->nu, 1);
+  pbl("actuator_forcelimited", m->actuator_forcelimited, m->nu, 1); pa("actuator_forcerange", m->actuator_forcerange, 2 * m->nu, 0);
   printf("},");
 }
 
@@ -127,6 +139,7 @@ static void dump_state(const mjModel* m, mjData* d, const mjtNum* qpos, const mj
   pa("xpos", d->xpos, 3 * m->nbody, 1); pa("xquat", d->xquat, 4 * m->nbody, 1); pa("xipos", d->xipos, 3 * m->nbody, 1);
   pa("qfrc_bias", d->qfrc_bias, nv, 1); pa("qfrc_passive", d->qfrc_passive, nv, 1); pa("qfrc_actuator", d->qfrc_actuator, nv, 1);
   pa("qacc", d->qacc, nv, 1); pa("qacc_smooth", d->qacc_smooth, nv, 1); pa("qfrc_constraint", d->qfrc_constraint, nv, 1);
+  pa("actuator_force", d->actuator_force, m->nu, 1); pa("qfrc_gravcomp", d->qfrc_gravcomp, nv, 1);
   pa("ten_length", d->ten_length, m->ntendon, 1); pa("sensordata", d->sensordata, m->nsensordata, 1);
   mjtNum* qM = (mjtNum*)calloc((size_t)nv * nv + 1, sizeof(mjtNum));
   mj_fullM(m, d, qM);
@@ -189,6 +202,7 @@ int main(void) {
       if (nb < MAXB) bodies[nb++] = cur;
       for (int i = 0; i < 3; i++) cur->pos[i] = strtod(p, &p);
       for (int i = 0; i < 4; i++) cur->quat[i] = strtod(p, &p);
+      { char* q = p; while (*q == ' ') q++; if (*q && *q != '\n') cur->gravcomp = strtod(p, &p); }
     } else if (!strcmp(kw, "joint")) {
       mjsJoint* j = mjs_addJoint(cur, NULL);
       mjg_name(j->element, "j", njnt++);
@@ -207,6 +221,12 @@ int main(void) {
           for (int i = 0; i < mjNIMP; i++) j->solimp_limit[i] = strtod(p, &p);
           for (int i = 0; i < mjNREF; i++) j->solref_friction[i] = strtod(p, &p);
           for (int i = 0; i < mjNIMP; i++) j->solimp_friction[i] = strtod(p, &p);
+          char* q2 = p; while (*q2 == ' ') q2++;
+          if (*q2 && *q2 != '\n') {
+            j->actgravcomp = (mjtBool)strtol(p, &p, 10);
+            j->actfrclimited = strtol(p, &p, 10) ? mjLIMITED_TRUE : mjLIMITED_FALSE;
+            j->actfrcrange[0] = strtod(p, &p); j->actfrcrange[1] = strtod(p, &p);
+          }
         } }
     } else if (!strcmp(kw, "geom")) {
       read_geom(mjs_addGeom(cur, NULL), p);
@@ -263,9 +283,18 @@ int main(void) {
       mjsActuator* a = mjs_addActuator(s, NULL); mjg_name(a->element, "a", nact++);
       char tn[16]; snprintf(tn, sizeof(tn), "j%d", ji);
       a->trntype = mjTRN_JOINT; mjs_setString(a->target, tn);
+      double kv = 0; int cl = 0, fl = 0; double cr[2] = {0, 0}, fr[2] = {0, 0};
+      { char* q = p; while (*q == ' ') q++;
+        if (*q && *q != '\n') {
+          kv = strtod(p, &p); cl = (int)strtol(p, &p, 10); cr[0] = strtod(p, &p); cr[1] = strtod(p, &p);
+          fl = (int)strtol(p, &p, 10); fr[0] = strtod(p, &p); fr[1] = strtod(p, &p);
+        } }
       if (kind == 0) mjs_setToMotor(a);
-      else { double kv = 0; mjs_setToPosition(a, kp, &kv, NULL, NULL, 0); }
+      else if (kind == 1) { double kvv = kv; mjs_setToPosition(a, kp, &kvv, NULL, NULL, 0); }
+      else mjs_setToVelocity(a, kv);
       a->gear[0] = gear;
+      a->ctrllimited = cl ? mjLIMITED_TRUE : mjLIMITED_FALSE; a->ctrlrange[0] = cr[0]; a->ctrlrange[1] = cr[1];
+      a->forcelimited = fl ? mjLIMITED_TRUE : mjLIMITED_FALSE; a->forcerange[0] = fr[0]; a->forcerange[1] = fr[1];
     } else if (!strcmp(kw, "END")) {
       printf("{");
       if (MJG_TRY) { m = mj_compile(s, NULL); MJG_END; } else m = NULL;
